@@ -645,6 +645,34 @@ def rule_r5(chk, prog):
               f'{sorted(term)!r}', loc=m.loc(f), nontrivial=True)
 
 
+def rule_r10(chk, prog):
+    chk.rule('C07.R10', 'the in-memory buffers the renderers write to do no '
+             'newline translation: io.StringIO is created with its default '
+             'newline ("\\n") or with newline=""')
+    m = prog.mod('nodeio')
+    n = 0
+    for q, f in m.funcs.items():
+        for c in calls_in(f):
+            if (call_name(c) or '') not in ('io.StringIO', 'StringIO'):
+                continue
+            n += 1
+            nl = kw(c, 'newline')
+            if nl is None and len(c.args) > 1:
+                nl = c.args[1]
+            ok = nl is None or (isinstance(nl, ast.Constant)
+                                and nl.value in ('', '\n'))
+            chk.check('C07.R10', f'nodeio.{q}', c, ok,
+                      f'{unparse(c)}: with newline='
+                      f'{unparse(nl) if nl is not None else ""} the buffer '
+                      'translates line terminators of everything written to '
+                      'it (universal newlines): a carriage return inside a '
+                      'comment, string literal or quoted symbol comes out '
+                      'as a line feed in the renderings that go through the '
+                      'buffer, the token is no longer emitted verbatim',
+                      loc=m.loc(c), nontrivial=True)
+    chk.floor('C07.R10', 'StringIO buffers in nodeio', n, 2)
+
+
 def run(tier):
     prog = Program()
     chk = Check(
@@ -686,6 +714,7 @@ def run(tier):
               {'nodeio': None, 'nodes': None},
               'the rendering written afterwards is empty or incomplete, '
               'while the other renderings are complete')
+    chk.guard(rule_r10, chk, prog)
     extra = None
     if tier == 'thorough':
         from .. import selftest
